@@ -26,6 +26,10 @@ def gen_classify(rng, n):
     cases = []
     for p, xf, xe, w, rc in itertools.product('eg', 'FT', ['', '77', '3'], 'xtc', ['0', '1', '77', '99', '3', '-15']):
         cases.append(['classify', [p, xf, xe, '', w, rc]])
+    # tap streams with a verdict known by construction x exit status (incl. signals) x should_fail x wait kind
+    for kind, text in sorted(O.TAP_KINDS.items()):
+        for xf, w, rc in itertools.product('FT', 'xtc', ['0', '1', '3', '77', '99', '127', '-9', '-11']):
+            cases.append(['classify', ['t', xf, '', text, w, rc]])
     nex = len(cases)
     for _ in range(n):
         p = rng.choice('eegttttrr')
@@ -190,6 +194,12 @@ def oracle_case(fn, a, ri, slice_of):
         if ri != want:
             out.append(('exit-code test with should_fail=%s, wait=%s, status %s classified %s, documented rule says %s'
                         % (a[1], a[4], a[5], ri, want), {'expected': want, 'got': ri}))
+    if fn == 'classify' and a[0] == 't' and a[3] in O.TAP_KIND_OF and not ri.startswith('EXC'):
+        kind = O.TAP_KIND_OF[a[3]]
+        want = O.documented_tap_result(kind, a[1] == 'T', a[4], int(a[5]))
+        if ri != want:
+            out.append(('tap test, stream %r (%s), should_fail=%s, wait=%s, program exits with status %s: classified %s, documented rule says %s'
+                        % (a[3], kind, a[1], a[4], a[5], ri, want), {'expected': want, 'got': ri}))
     if fn == 'tally' and not ri.startswith('EXC'):
         f = ri.split(SEP1)
         counts = [int(x) for x in f[0].split(',')]
